@@ -92,6 +92,64 @@ def self_writes(m):
     return out
 
 
+def _derived_from(funcs, attr, tables, meths):
+    """Does some value stored into self.<attr> (by these functions) depend on
+    one of the tables - directly, through locals, or through a call on self?
+    (An attribute that only ever receives the caller's arguments, constants or
+    its own previous value is bookkeeping, not a remembered answer.)"""
+    def sattr(n):
+        while isinstance(n, ast.Subscript):
+            n = n.value
+        if isinstance(n, ast.Attribute) and isinstance(
+                n.value, ast.Name) and n.value.id == 'self':
+            return n.attr
+        return None
+    for g in funcs:
+        tainted = set()
+
+        def dirty(e):
+            for x in ast.walk(e):
+                if isinstance(x, ast.Attribute) and isinstance(
+                        x.value, ast.Name) and x.value.id == 'self':
+                    if x.attr in tables:
+                        return True
+                    if x.attr != attr and x.attr in meths:
+                        return True     # a call on self: may read anything
+                if isinstance(x, ast.Name) and x.id in tainted:
+                    return True
+            return False
+        for _ in range(3):
+            for n in ast.walk(g.node):
+                if isinstance(n, ast.Assign) and dirty(n.value):
+                    for t in n.targets:
+                        for y in ast.walk(t):
+                            if isinstance(y, ast.Name):
+                                tainted.add(y.id)
+                if isinstance(n, (ast.For, ast.comprehension)) and dirty(
+                        n.iter):
+                    for y in ast.walk(n.target):
+                        if isinstance(y, ast.Name):
+                            tainted.add(y.id)
+                if isinstance(n, ast.NamedExpr) and dirty(n.value):
+                    tainted.add(n.target.id)
+        for n in ast.walk(g.node):
+            vals = []
+            if isinstance(n, ast.Assign) and any(
+                    sattr(t) == attr for tt in n.targets for t in (
+                        tt.elts if isinstance(tt, ast.Tuple) else [tt])):
+                vals = [n.value] + [t.slice for t in n.targets
+                                    if isinstance(t, ast.Subscript)]
+            elif isinstance(n, (ast.AugAssign, ast.AnnAssign)) and sattr(
+                    n.target) == attr and n.value is not None:
+                vals = [n.value]
+            elif isinstance(n, ast.Call) and isinstance(
+                    n.func, ast.Attribute) and sattr(n.func.value) == attr:
+                vals = list(n.args) + [k.value for k in n.keywords]
+            if any(dirty(v) for v in vals):
+                return True
+    return False
+
+
 def check_memo_invalidation(program, rep, rule, cls, queries, tables, what,
                             closure_keyed=False):
     """A query method may remember answers in an attribute of the object only
@@ -162,6 +220,8 @@ def check_memo_invalidation(program, rep, rule, cls, queries, tables, what,
                     for g in closure(m) for x in ast.walk(g.node))
                 if not consulted:
                     continue
+                if not _derived_from(closure(m), attr, rd, meths):
+                    continue    # what is stored does not come from the tables
                 missing = sorted(k for k, (mm, w2) in mutators.items()
                                  if attr not in w2)
                 if missing:
